@@ -35,7 +35,7 @@ type sim struct {
 	nVals   int
 	byz     []*byzVal // Byzantine validators (simulator-held keys)
 	bz      byzState
-	powers  []int64   // genesis powers, validators 0..nVals-1 then byz
+	powers  []int64 // genesis powers, validators 0..nVals-1 then byz
 
 	cur          *simNode // node being stimulated (for the global hooks)
 	driverInNode bool
@@ -371,6 +371,7 @@ func (s *sim) with(n *simNode, f func()) {
 			}
 			n.durable.afterRepair = n.repairedAtBoot
 			n.durable.noMarker = n.walPoisoned
+			n.durable.markerCut = n.markerCut
 		}
 	}
 	s.afterStimulus(n)
